@@ -141,6 +141,25 @@ Theorem C18_metropolis_2d_in_domain PDF s1 s2 sample thin burn x0 x1 y0 y1 us l 
 Proof. exact (metropolis_2d_in_domain PDF s1 s2 sample thin burn x0 x1 y0 y1 us l r). Qed.
 Print Assumptions C18_metropolis_2d_in_domain.
 
+(** the step behind it, for EVERY density (also a current point of density 0, where pi(y)/pi(x) is undefined: the code
+    sets the probability to 0 without dividing) and EVERY accept deviate u >= 0, the deviate 0 included: a candidate
+    outside of the bounded domain has acceptance probability exactly 0 and the test `u < 0` does not take it *)
+Theorem C18_acceptance_outside_domain_is_zero PDF lo hi x y : y < lo \/ hi < y ->
+  accept1 ROps PDF (Some (lo, hi)) x y = 0.
+Proof. exact (accept1_outside_any_density PDF lo hi x y). Qed.
+Print Assumptions C18_acceptance_outside_domain_is_zero.
+
+Theorem C18_metropolis_step_rejects_outside PDF lo hi x y u : y < lo \/ hi < y -> 0 <= u ->
+  nltb ROps (unif ROps u (n0 ROps) (n1 ROps)) (accept1 ROps PDF (Some (lo, hi)) x y) = false.
+Proof. exact (metro_step_keeps_outside_candidate_out PDF lo hi x y u). Qed.
+Print Assumptions C18_metropolis_step_rejects_outside.
+
+Theorem C18_metropolis_2d_step_rejects_outside PDF x0 x1 y0 y1 x c u :
+  (fst c < x0 \/ x1 < fst c \/ snd c < y0 \/ y1 < snd c) -> 0 <= u ->
+  nltb ROps (unif ROps u (n0 ROps) (n1 ROps)) (accept2 ROps PDF (Some (x0, x1, y0, y1)) x c) = false.
+Proof. exact (metro2_step_keeps_outside_candidate_out PDF x0 x1 y0 y1 x c u). Qed.
+Print Assumptions C18_metropolis_2d_step_rejects_outside.
+
 (** ** detailed balance of the acceptance probability min(1, pi(y)/pi(x)) the code computes *)
 Theorem C18_acceptance_detailed_balance PDF x y : 0 < PDF x -> 0 < PDF y ->
   PDF x * accept1 ROps PDF None x y = PDF y * accept1 ROps PDF None y x.
